@@ -94,7 +94,16 @@ pub fn install_panic_hook() {
 pub fn catch<T>(f: impl FnOnce() -> T) -> Result<T, PanicInfo> {
     let prev = CAPTURING.with(|c| c.replace(true));
     LAST_PANIC.with(|p| *p.borrow_mut() = None);
+    // every monitored call is also a case of the CPU-time termination monitor, unless the caller
+    // has already published a more specific one (C04/C06 publish the input bytes)
+    let publish = !case_active();
+    if publish {
+        generic_begin();
+    }
     let r = catch_unwind(AssertUnwindSafe(f));
+    if publish {
+        generic_end();
+    }
     CAPTURING.with(|c| c.set(prev));
     match r {
         Ok(v) => Ok(v),
@@ -288,6 +297,15 @@ pub struct CaseSlot {
 struct Registered {
     clock: libc::clockid_t,
     slot: std::sync::Arc<std::sync::Mutex<CaseSlot>>,
+    /// generic lane (every `catch`): a sequence number bumped per call and an active flag; the
+    /// watchdog samples them, so the hot path reads no clock and takes no lock
+    generic: std::sync::Arc<GenericLane>,
+}
+
+#[derive(Default)]
+pub struct GenericLane {
+    seq: std::sync::atomic::AtomicU64,
+    active: std::sync::atomic::AtomicBool,
 }
 
 static REGISTRY: std::sync::Mutex<Vec<Registered>> = std::sync::Mutex::new(Vec::new());
@@ -295,6 +313,56 @@ pub static MAX_CASE_CPU_MS: std::sync::atomic::AtomicU64 = std::sync::atomic::At
 
 thread_local! {
     static MY_SLOT: RefCell<Option<(libc::clockid_t, std::sync::Arc<std::sync::Mutex<CaseSlot>>)>> = const { RefCell::new(None) };
+    static MY_GENERIC: RefCell<Option<std::sync::Arc<GenericLane>>> = const { RefCell::new(None) };
+    static SPECIFIC_ACTIVE: Cell<bool> = const { Cell::new(false) };
+}
+
+fn ensure_registered() {
+    MY_SLOT.with(|s| {
+        let mut s = s.borrow_mut();
+        if s.is_some() {
+            return;
+        }
+        let mut clock: libc::clockid_t = 0;
+        // SAFETY: pthread_self() is always valid for the calling thread.
+        let rc = unsafe { libc::pthread_getcpuclockid(libc::pthread_self(), &mut clock) };
+        if rc != 0 {
+            return;
+        }
+        let slot = std::sync::Arc::new(std::sync::Mutex::new(CaseSlot {
+            op: String::new(),
+            family: String::new(),
+            input: Vec::new(),
+            cpu_start_ns: 0,
+            active: false,
+        }));
+        let generic = std::sync::Arc::new(GenericLane::default());
+        if let Ok(mut r) = REGISTRY.lock() {
+            r.push(Registered { clock, slot: slot.clone(), generic: generic.clone() });
+        }
+        MY_CLOCK.with(|k| k.set(clock as i64));
+        MY_GENERIC.with(|g| *g.borrow_mut() = Some(generic));
+        *s = Some((clock, slot));
+    });
+}
+
+/// Generic lane: called by `catch` around every monitored call.
+fn generic_begin() {
+    ensure_registered();
+    MY_GENERIC.with(|g| {
+        if let Some(g) = g.borrow().as_ref() {
+            g.seq.fetch_add(1, std::sync::atomic::Ordering::Relaxed);
+            g.active.store(true, std::sync::atomic::Ordering::Release);
+        }
+    });
+}
+
+fn generic_end() {
+    MY_GENERIC.with(|g| {
+        if let Some(g) = g.borrow().as_ref() {
+            g.active.store(false, std::sync::atomic::Ordering::Release);
+        }
+    });
 }
 
 fn clock_ns(clock: libc::clockid_t) -> u64 {
@@ -309,29 +377,10 @@ fn clock_ns(clock: libc::clockid_t) -> u64 {
 
 /// Publish the case this thread is about to run.
 pub fn case_begin(op: &str, family: &str, input: &[u8]) {
+    ensure_registered();
+    SPECIFIC_ACTIVE.with(|a| a.set(true));
     MY_SLOT.with(|s| {
-        let mut s = s.borrow_mut();
-        if s.is_none() {
-            let mut clock: libc::clockid_t = 0;
-            // SAFETY: pthread_self() is always valid for the calling thread.
-            let rc = unsafe { libc::pthread_getcpuclockid(libc::pthread_self(), &mut clock) };
-            if rc != 0 {
-                return;
-            }
-            let slot = std::sync::Arc::new(std::sync::Mutex::new(CaseSlot {
-                op: String::new(),
-                family: String::new(),
-                input: Vec::new(),
-                cpu_start_ns: 0,
-                active: false,
-            }));
-            if let Ok(mut r) = REGISTRY.lock() {
-                r.push(Registered { clock, slot: slot.clone() });
-            }
-            MY_CLOCK.with(|k| k.set(clock as i64));
-            *s = Some((clock, slot));
-        }
-        if let Some((clock, slot)) = s.as_ref() {
+        if let Some((clock, slot)) = s.borrow().as_ref() {
             if let Ok(mut g) = slot.lock() {
                 g.op.clear();
                 g.op.push_str(op);
@@ -346,7 +395,13 @@ pub fn case_begin(op: &str, family: &str, input: &[u8]) {
     });
 }
 
+/// Whether this thread currently has a published, specific case (C04/C06 style).
+pub fn case_active() -> bool {
+    SPECIFIC_ACTIVE.with(|a| a.get())
+}
+
 pub fn case_end() {
+    SPECIFIC_ACTIVE.with(|a| a.set(false));
     MY_SLOT.with(|s| {
         if let Some((clock, slot)) = s.borrow().as_ref() {
             if let Ok(mut g) = slot.lock() {
@@ -361,7 +416,9 @@ pub fn case_end() {
 /// Start the watchdog.  `on_stuck(op, family, input, cpu_seconds)` is called once for the first
 /// case that exceeds `budget_s` of CPU time; it is expected to report and exit the process.
 pub fn start_cpu_watchdog(budget_s: u64, on_stuck: impl Fn(&str, &str, &[u8], u64) + Send + 'static) {
-    std::thread::spawn(move || loop {
+    std::thread::spawn(move || {
+      let mut seen: Vec<(u64, u64)> = Vec::new();
+      loop {
         std::thread::sleep(std::time::Duration::from_millis(200));
         let Ok(reg) = REGISTRY.lock() else { continue };
         let breach = MEM_BREACH_CLOCK.load(std::sync::atomic::Ordering::SeqCst);
@@ -378,6 +435,25 @@ pub fn start_cpu_watchdog(budget_s: u64, on_stuck: impl Fn(&str, &str, &[u8], u6
                 }
             }
         }
+        // generic lane: the same call (same sequence number) still active after `budget_s` of this
+        // thread's CPU time has passed since the watchdog first saw it
+        for (i, r) in reg.iter().enumerate() {
+            if seen.len() <= i {
+                seen.push((u64::MAX, 0));
+            }
+            if !r.generic.active.load(std::sync::atomic::Ordering::Acquire) {
+                seen[i] = (u64::MAX, 0);
+                continue;
+            }
+            let seq = r.generic.seq.load(std::sync::atomic::Ordering::Relaxed);
+            let now = clock_ns(r.clock);
+            if seen[i].0 != seq {
+                seen[i] = (seq, now);
+            } else if now.saturating_sub(seen[i].1) > budget_s * 1_000_000_000 {
+                on_stuck("a monitored call into the library", "", &[], now.saturating_sub(seen[i].1) / 1_000_000_000);
+                return;
+            }
+        }
         for r in reg.iter() {
             let Ok(g) = r.slot.lock() else { continue };
             if !g.active {
@@ -389,6 +465,7 @@ pub fn start_cpu_watchdog(budget_s: u64, on_stuck: impl Fn(&str, &str, &[u8], u6
                 return;
             }
         }
+      }
     });
 }
 
